@@ -72,6 +72,25 @@ proof fn lemma_range_consts()
 {
 }
 
+// Euclidean division is determined by q * d + r with 0 <= r < d (one divisor per call keeps the solver's work small)
+proof fn lemma_div_unique(x: int, d: int, q: int, r: int)
+    requires
+        d == 4 || d == 100 || d == 400,
+        x == q * d + r,
+        0 <= r < d,
+    ensures
+        x / d == q,
+        x % d == r,
+{
+    if d == 4 {
+        assert(x / 4 == q && x % 4 == r);
+    } else if d == 100 {
+        assert(x / 100 == q && x % 100 == r);
+    } else {
+        assert(x / 400 == q && x % 400 == r);
+    }
+}
+
 // Year arithmetic of the 400/100/4/1 cycle decomposition, counted from 2000-03-01 (day 11017)
 proof fn lemma_cycles(a: int, b: int, c: int, e: int)
     requires
@@ -86,12 +105,30 @@ proof fn lemma_cycles(a: int, b: int, c: int, e: int)
         }),
 {
     let y = 2000 + 400 * a + 100 * b + 4 * c + e;
-    assert(y / 4 == 500 + 100 * a + 25 * b + c);
-    assert(y / 100 == 20 + 4 * a + b);
-    assert(y / 400 == 5 + a);
-    assert((y - 1) / 4 + (if y % 4 == 0 { 1int } else { 0 }) == y / 4);
-    assert((y - 1) / 100 + (if y % 100 == 0 { 1int } else { 0 }) == y / 100);
-    assert((y - 1) / 400 + (if y % 400 == 0 { 1int } else { 0 }) == y / 400);
+    lemma_div_unique(y, 4, 500 + 100 * a + 25 * b + c, e);
+    lemma_div_unique(y, 100, 20 + 4 * a + b, 4 * c + e);
+    lemma_div_unique(y, 400, 5 + a, 100 * b + 4 * c + e);
+    lemma_div_step(y, 4);
+    lemma_div_step(y, 100);
+    lemma_div_step(y, 400);
+    // the year after: y + 1 = 4 q4 + (e + 1) etc.
+    if e < 3 {
+        lemma_div_unique(y + 1, 4, 500 + 100 * a + 25 * b + c, e + 1);
+    } else {
+        lemma_div_unique(y + 1, 4, 500 + 100 * a + 25 * b + c + 1, 0);
+    }
+    if 4 * c + e < 99 {
+        lemma_div_unique(y + 1, 100, 20 + 4 * a + b, 4 * c + e + 1);
+    } else {
+        lemma_div_unique(y + 1, 100, 20 + 4 * a + b + 1, 0);
+    }
+    if 100 * b + 4 * c + e < 399 {
+        lemma_div_unique(y + 1, 400, 5 + a, 100 * b + 4 * c + e + 1);
+    } else {
+        lemma_div_unique(y + 1, 400, 5 + a + 1, 0);
+    }
+    assert(dby(y) == 365 * (y - 1970) + (y - 1) / 4 - (y - 1) / 100 + (y - 1) / 400 - 477);
+    assert(cum(3, leap(y)) == 59 + if leap(y) { 1int } else { 0 });
 }
 
 // March-based (year, month index k, day offset) -> civil date
@@ -259,5 +296,21 @@ proof fn lemma_from_timespec_final(y: int, m: int, d: int, sod: int, dn: int, t:
     if -2147483648 <= y <= 2147483647 {
         lemma_dby_mono(-2147483648, y);
         lemma_dby_mono(y + 1, 2147483648);
+    }
+}
+
+// divisibility does not depend on the rounding convention of the remainder (one divisor per call)
+proof fn lemma_rem_zero(x: int, d: int)
+    requires
+        d == 4 || d == 100 || d == 400,
+    ensures
+        (trem(x, d) == 0) == (x % d == 0),
+{
+    if d == 4 {
+        assert((trem(x, 4) == 0) == (x % 4 == 0));
+    } else if d == 100 {
+        assert((trem(x, 100) == 0) == (x % 100 == 0));
+    } else {
+        assert((trem(x, 400) == 0) == (x % 400 == 0));
     }
 }
